@@ -700,6 +700,32 @@ Fixpoint luf_nth (k : nat) (l : list Z) (pos : Z) : option (Z * Z) :=
             end
   end.
 
+(* ---- palettes and attributes (raw-location queries of the GR / SD layer) ---------------------------------- *)
+(** palette descriptors (DFTAG_IP8 = 201, DFTAG_LUT = 301) in directory order: what GRgetpalinfo must report, the
+    first [pal_count] of them when the caller's array is shorter *)
+Definition is_pal_tag (t : Z) : bool := (t =? 201) || (t =? 301).
+Definition palettes (ds : list dd) : list dd := filter (fun d => is_pal_tag (dd_tag d)) (live ds).
+Definition pal_answer (ds : list dd) (pal_count : option Z) : Z * list dd :=
+  match pal_count with
+  | None => (zlen (palettes ds), [])
+  | Some n => let got := firstn (Z.to_nat n) (palettes ds) in (zlen got, got)
+  end.
+
+(** an attribute of a file / data set / dimension is the Vdata of class "Attr0.0" in the object's Vgroup whose name
+    is EXACTLY the attribute's name; members = (class, name, ref) of the Vgroup's Vdatas in order *)
+Definition attr_class : list Z := [65; 116; 116; 114; 48; 46; 48].      (* "Attr0.0" *)
+Fixpoint bytes_eqb (a b : list Z) : bool :=
+  match a, b with
+  | [], [] => true
+  | x :: a', y :: b' => (x =? y) && bytes_eqb a' b'
+  | _, _ => false
+  end.
+Definition attr_find (members : list (list Z * list Z * Z)) (name : list Z) : option Z :=
+  match find (fun m => bytes_eqb (fst (fst m)) attr_class && bytes_eqb name (snd (fst m))) members with
+  | Some m => Some (snd m)
+  | None => None
+  end.
+
 (* ---- well-formedness, declarative form ------------------------------------------------------------ *)
 (** the DD-block chain starting at [off]: every block parses, each names the next, the last names 0 *)
 Inductive chain (img : image) : Z -> list ddblock -> Prop :=
